@@ -3,6 +3,7 @@ import PasetoModel.Pae
 import Driver.Parse
 import PasetoModel.Backend
 import PasetoModel.Asym
+import PasetoModel.PaserkInst
 /-! Line-protocol driver: executes the model's definitions (the ones the theorems are about) on
     the operation lines produced by the harness.  One result line per operation line. -/
 open PM
@@ -50,6 +51,48 @@ def pubOpen (be : Backend) (key tok a : Bytes) : String :=
     | .ok m => s!"ok {toHex m} {toHex t.footer} dec={d} val={v}"
     | .err e => s!"err {errName e} dec={d} val={v}"
     | .panic _ => "panic"
+
+def sk? (k : Kind) : Option SKind := k.toSKind?
+
+/-- unwrap a PIE-wrapped key string with a local wrapping key -/
+def pieOpen (be : Backend) (kind : SKind) (wk s : Bytes) : Res Bytes :=
+  (keyDecode be .localK wk).bind fun wk =>
+  ((Form.pie kind).parse be s).bind fun blob =>
+  (pieUnwrap (pieOf be) (pieTagLen be.version) (Extracted.paserkHeader be) (Extracted.pieHeader kind) wk blob).bind fun raw =>
+  keyDecode be kind.toKind raw
+
+def pieWrapStr (be : Backend) (kind : SKind) (wk nonce key : Bytes) : Bytes :=
+  showSimple (Extracted.paserkHeader be) (Extracted.pieHeader kind)
+    (pieWrap (pieOf be) (Extracted.paserkHeader be) (Extracted.pieHeader kind) wk nonce key)
+
+def pwOpen (be : Backend) (kind : SKind) (pass s : Bytes) : Res Bytes :=
+  ((Form.pw kind).parse be s).bind fun blob =>
+  (pbkwUnwrap (pbkwOf be) (Extracted.paserkHeader be) (Extracted.pwHeader kind) pass blob).bind fun raw =>
+  keyDecode be kind.toKind raw
+
+def pwWrapStr (be : Backend) (kind : SKind) (pass salt params nonce key : Bytes) : Res Bytes :=
+  (pbkwWrap (pbkwOf be) (Extracted.paserkHeader be) (Extracted.pwHeader kind) pass salt params nonce key).map
+    (showSimple (Extracted.paserkHeader be) (Extracted.pwHeader kind))
+
+def sealOpen (be : Backend) (sk s : Bytes) : Res Bytes :=
+  (keyDecode be .pkeSecret sk).bind fun sk =>
+  (Form.sealK.parse be s).bind fun blob =>
+  (pkeUnseal (pkeOf be) sk blob).bind fun raw => keyDecode be .localK raw
+
+def sealStr (be : Backend) (pk key rnd : Bytes) : Res Bytes :=
+  (keyDecode be .pkePublic pk).bind fun pk =>
+  (keyDecode be .localK key).bind fun key =>
+  (pkeSeal (pkeOf be) pk key rnd).map (showSimple (Extracted.paserkHeader be) (Extracted.sealHeader be))
+
+/-- id of a key given as raw bytes: decode, canonical PASERK text, hash -/
+def keyIdStr (be : Backend) (k : Kind) (raw : Bytes) : Res Bytes :=
+  (keyDecode be k raw).bind fun key =>
+  (keyEncode be k key).map fun enc =>
+    let text := showSimple (Extracted.paserkHeader be) (Extracted.kindHeader k) enc
+    showSimple (Extracted.paserkHeader be) (Extracted.idHeader k)
+      (keyIdOf (hash33 be.version) (Extracted.paserkHeader be) (Extracted.idHeader k) text)
+
+def hexRes (r : Res Bytes) : String := showRes (r.map toHex)
 
 def parsePieces (s : String) : Option (List (List Bytes)) :=
   if s == "." then some [] else
@@ -107,6 +150,51 @@ def step (line : String) : Option String :=
         let S' : LocalScheme := { S with synth := noSynth }
         some (showRes (locSeal S' be key nonce msg f a))
       else none
+  | ["pie.open", be, kind, wk, str, _want] => do
+      let be ← Backend.ofString? be; let kind ← sk? (← Kind.ofString? kind)
+      some (hexRes (pieOpen be kind (← ofHex wk) (← ofHex str)))
+  | ["m.pie.wrap", be, kind, wk, nonce, key] => do
+      let be ← Backend.ofString? be; let kind ← sk? (← Kind.ofString? kind)
+      some ("ok " ++ toHex (pieWrapStr be kind (← ofHex wk) (← ofHex nonce) (← ofHex key)))
+  | ["pie.re", be, kind, wk, str] => do
+      -- bit-exactness: re-wrap the unwrapped key with the nonce embedded in the blob; must reproduce the string
+      let be ← Backend.ofString? be; let kind ← sk? (← Kind.ofString? kind)
+      let wk ← ofHex wk; let str ← ofHex str
+      some (showRes (((Form.pie kind).parse be str).bind fun blob =>
+        (pieUnwrap (pieOf be) (pieTagLen be.version) (Extracted.paserkHeader be) (Extracted.pieHeader kind) wk blob).map fun raw =>
+          let nonce := (blob.drop (pieTagLen be.version)).take 32
+          if pieWrapStr be kind wk nonce raw = str then "same=1" else "same=0"))
+  | ["pw.open", be, kind, pass, str, _want] => do
+      let be ← Backend.ofString? be; let kind ← sk? (← Kind.ofString? kind)
+      some (hexRes (pwOpen be kind (← ofHex pass) (← ofHex str)))
+  | ["m.pw.wrap", be, kind, pass, salt, params, nonce, key] => do
+      let be ← Backend.ofString? be; let kind ← sk? (← Kind.ofString? kind)
+      some (hexRes (pwWrapStr be kind (← ofHex pass) (← ofHex salt) (← ofHex params) (← ofHex nonce) (← ofHex key)))
+  | ["pw.re", be, kind, pass, str] => do
+      let be ← Backend.ofString? be; let kind ← sk? (← Kind.ofString? kind)
+      let pass ← ofHex pass; let str ← ofHex str
+      let S := pbkwOf be
+      some (showRes (((Form.pw kind).parse be str).bind fun blob =>
+        (pbkwUnwrap S (Extracted.paserkHeader be) (Extracted.pwHeader kind) pass blob).bind fun raw =>
+          let salt := blob.take S.saltLen
+          let params := (blob.drop S.saltLen).take S.paramLen
+          let nonce := (blob.drop (S.saltLen + S.paramLen)).take S.nonceLen
+          (pwWrapStr be kind pass salt params nonce raw).map fun s2 => if s2 = str then "same=1" else "same=0"))
+  | ["seal.open", be, sk, str, _want] => do
+      let be ← Backend.ofString? be
+      some (hexRes (sealOpen be (← ofHex sk) (← ofHex str)))
+  | ["m.seal", be, pk, key, rnd] => do
+      let be ← Backend.ofString? be
+      some (hexRes (sealStr be (← ofHex pk) (← ofHex key) (← ofHex rnd)))
+  | ["key.dec", be, kind, raw] => do
+      let be ← Backend.ofString? be; let kind ← Kind.ofString? kind
+      some (hexRes ((keyDecode be kind (← ofHex raw)).bind (keyEncode be kind)))
+  | ["key.pub", be, sk] => do
+      let be ← Backend.ofString? be
+      some (hexRes ((keyDecode be .secretK (← ofHex sk)).map (pubOfWith (cfgOf be) be.version)))
+  | ["id", be, kind, raw] => do
+      let be ← Backend.ofString? be; let kind ← Kind.ofString? kind
+      some (hexRes (keyIdStr be kind (← ofHex raw)))
   | ["val", v, c] => do
       let v ← parseV v
       let c ← parseClaims c
